@@ -848,6 +848,9 @@ O(id='BIT_STRING_uper.size-grid', props=['C01', 'C02'], kind='native', harness='
   functions=['BIT_STRING_encode_uper', 'BIT_STRING_decode_uper', 'BIT_STRING__compactify', 'per_put_many_bits', 'per_get_many_bits'], no_canary=True,
   bound='native grid under ASan/UBSan: BIT STRING (SIZE(n)) for every n = 1..420 x 13 positions of the last one-bit (zero padding of 0..n bits, incl. exact multiples of 128): bits written, round trip', timeout=600)
 
+O(id='SEQUENCE_encode_oer.aoms8', props=['C02', 'C06', 'C07'], kind='bounded', entry='h_SEQUENCE_encode_oer', functions=['SEQUENCE_encode_oer', 'asn_put_few_bits', 'asn_put_aligned_flush', 'oer_open_type_put'],
+  unwind=22, cbmc=['--no-malloc-may-fail'], bound='as SEQUENCE_encode_oer with eight extension additions (a full bitmap octet: no unused bits)', min_props=60, timeout=900, **dict(SQE, defines=['VF_CB_CAP=20', 'VF_AOMS=8']))
+
 for _o in OBLIGATIONS:
     if _o.get('enforce') and _o.get('kind') in ('enforce', 'width') and _o.get('tier') == 'quick' and 'C19' not in _o['props']:
         _o['props'] = _o['props'] + ['C19']
